@@ -807,6 +807,11 @@ def parse_on_enter(ct: Container, rep, rule="parse-on-enter"):
 
 
 def size_from_fs(ct: Container, rep, rule="size-from-fs"):
+    cached = ct.tdf.get("nBytes", "cached")
+    if cached is not None:
+        rep.fail(rule, MOD(ct), "Tdf.nBytes", cached.node, f"Tdf.nBytes is memoised ({', '.join(cached.decorators)}): after the first question the object keeps answering with the size the file had then, "
+                 "whatever was added or removed since", construct="Tdf.nBytes memoised")
+        return
     g = ct.prog.need_method(ct.tdf, "nBytes", "getter")
     from .facts import return_leaves
     rets = [s for s in walk_no_nested(g.node) if isinstance(s, ast.Return)]
@@ -824,6 +829,12 @@ def get_block_reads_disk(ct: Container, rep, rule="read-through-handle"):
     fq = "Tdf.get_block"
     dec = ff.ev("decode")
     if not dec:
+        other = [c for c in walk_no_nested(ff.f.node) if isinstance(c, ast.Call) and isinstance(c.func, ast.Attribute) and c.func.attr == "_build" and c.args
+                 and not ct.is_handle(c.args[0])]
+        if other:
+            rep.fail(rule, MOD(ct), fq, other[0], f"`{norm(other[0])[:70]}` decodes from `{norm(other[0].args[0])}`, not from the session's handle self.{ct.handle}: a second stream "
+                     "(its own buffer, its own position) does not see what the mutators have just written through the handle", construct=f"{fq} decodes from {norm(other[0].args[0])}")
+            return
         raise AnalysisError(f"{fq}: no <class>._build(handle, ...) call found")
     d = dec[0]
     prev = ff.position_before(d.node)
